@@ -126,6 +126,19 @@ def cases(tier):
         else:
             for ax in range(d):
                 out.append({"kind": "uniq", "d": d, "tol": tol, "clusters": cfg, "axes": [ax], "N": N})
+    # translation / scale axis: the same kind of configurations far from the origin and magnified /
+    # shrunk; "cluster diameter << tol << cluster distance" holds exactly as before (verified per case)
+    nfar = {"quick": {1: 4, 2: 4, 3: 3}, "thorough": {1: 5, 2: 5, 3: 4}}[tier]
+    for d in (1, 2, 3):
+        for origin in _far_origins(d):
+            for k in (1, 2, 3):
+                for rs in itertools.combinations(range(len(DISP[d])), k):
+                    out.append({"kind": "uniq", "d": d, "tol": FAR_TOL, "clusters": [[r, 0] for r in rs], "axes": list(range(d)),
+                                "N": nfar[k], "frame": {"origin": origin}})
+    nsc = {"quick": {1: 3, 2: 3, 3: 3}, "thorough": {1: 4, 2: 4, 3: 4}}[tier]
+    for scale, tol in ((1e3, 1e-3), (1e-3, 1e-6)):
+        for cfg in _configs(2, sharp):
+            out.append({"kind": "uniq", "d": 2, "tol": tol, "clusters": cfg, "axes": [0, 1], "N": nsc[len(cfg)], "frame": {"scale": scale}})
     # integer lattice words, grouped by the first two letters
     ints = {"quick": [(1, 2, 6), (2, 2, 4), (3, 1, 4)], "thorough": [(1, 2, 8), (2, 2, 5), (3, 1, 5)]}[tier]
     for d, m, N in ints:
@@ -197,12 +210,42 @@ def _expected_from_labels(labels):
     return n2o, o2n, len(order)
 
 
-def _cluster_table(d, tol, cfg, ax):
-    """Columns 3*c + o = centre_c + (0, +delta, -delta)[o] * tol * e_ax."""
+# "far" layout: cluster centres = origin + displacement; displacements pairwise >= 1.0 apart
+DISP = {
+    1: [(0.0,), (1.0,), (2.5,), (-1.0,)],
+    2: [(0.0, 0.0), (1.0, 0.0), (2.5, 0.0), (0.0, 1.0), (-1.0, 2.5)],
+    3: [(0.0, 0.0, 0.0), (1.0, 0.0, 0.0), (2.5, 0.0, 0.0), (0.0, 1.0, 0.0), (0.0, -1.0, 2.5)],
+}
+FAR_TOL = 1e-4
+
+
+def _far_origins(d):
+    out = []
+    for mag in (1e3, 1e5, 1e6):
+        ax = [0.0] * d
+        ax[0] = mag
+        out.append(ax)
+        if d > 1:
+            out.append([mag] * d)  # along the diagonal
+    return out
+
+
+def _cluster_table(d, tol, cfg, ax, frame=None):
+    """Columns 3*c + o = centre_c + (0, +delta, -delta)[o] * tol * e_ax.
+
+    frame None: centre = (1 + s tol) ray. frame {"scale": S}: centre = S ray + s tol ray (the
+    same configuration magnified / shrunk, norm gaps still s tol). frame {"origin": O}: "far"
+    layout, centre = O + DISP[c] (cluster entries index DISP)."""
     T = np.zeros((d, 3 * len(cfg)))
     for c, (r, s) in enumerate(cfg):
-        ray = np.array(RAYS[d][r][1])
-        centre = (1.0 + SCALES[s] * tol) * ray
+        if frame is not None and "origin" in frame:
+            centre = np.array(frame["origin"], dtype=float) + np.array(DISP[d][r])
+        else:
+            ray = np.array(RAYS[d][r][1])
+            if frame is None:
+                centre = (1.0 + SCALES[s] * tol) * ray
+            else:
+                centre = frame["scale"] * ray + (SCALES[s] * tol) * ray
         for o, sg in enumerate((0.0, 1.0, -1.0)):
             p = centre.copy()
             p[ax] += sg * DELTA * tol
@@ -210,7 +253,7 @@ def _cluster_table(d, tol, cfg, ax):
     return T
 
 
-def _verify_separation(T, tol):
+def _verify_separation(T, tol, unit=1.0):
     """Exact check of the 'well separated clusters' premise on the actual floats."""
     cols = [X.vec(T[:, j]) for j in range(T.shape[1])]
     t = X.fr(tol)
@@ -220,7 +263,7 @@ def _verify_separation(T, tol):
             if i // 3 == j // 3:
                 if not d2 <= (X.F(11, 100) * t) ** 2:
                     raise AssertionError("harness: cluster diameter too large")
-            elif not d2 >= X.F(1, 4):
+            elif not d2 >= X.F(1, 4) * X.fr(unit) ** 2:
                 raise AssertionError("harness: clusters not far apart")
 
 
@@ -251,7 +294,9 @@ def _run_uniq(case, out: Outcome):
 
     d, tol, cfg, N = case["d"], case["tol"], case["clusters"], case["N"]
     nc = len(cfg)
-    cfg_key = (d, tol, tuple(map(tuple, cfg)))
+    frame = case.get("frame")
+    unit = frame["scale"] if frame and "scale" in frame else 1.0
+    cfg_key = (d, tol, tuple(map(tuple, cfg)), repr(frame))
     # the empty point set
     try:
         u, n2o, o2n = uniquify_point_set(np.zeros((d, 0)), tol)
@@ -261,9 +306,10 @@ def _run_uniq(case, out: Outcome):
     except Exception as e:
         out.violate("uniquify_point_set raised on the empty point set", error=repr(e))
         out.ev("uniq/exception")
+    ftag = "" if frame is None else ("-far" if "origin" in frame else "-scaled")
     for ax in case["axes"]:
-        T = _cluster_table(d, tol, cfg, ax)
-        _verify_separation(T, tol)
+        T = _cluster_table(d, tol, cfg, ax, frame)
+        _verify_separation(T, tol, unit)
         norms = np.sqrt((T**2).sum(axis=0))
         for n in range(nc, N + 1):
             letters, lab_id, table = _words(nc, n)
@@ -273,13 +319,18 @@ def _run_uniq(case, out: Outcome):
                 idx = letters[w]
                 pts = np.ascontiguousarray(T[:, idx])
                 e_n2o, e_o2n, K = table[int(lab_id[w])]
-                cls = f"uniq/k{K}/{_mask_name(int(masks[w]))}"
+                cls = f"uniq{ftag}/k{K}/{_mask_name(int(masks[w]))}"
                 key = (cfg_key, int(lab_id[w]), n) if (K >= 2 and n > K) else None
+                pts_before = pts.copy()
                 try:
                     u, n2o, o2n = uniquify_point_set(pts, tol)
                 except Exception as e:
                     out.violate("uniquify_point_set raised", error=repr(e), points=pts, tol=tol)
                     out.ev("uniq/exception", key)
+                    continue
+                if not np.array_equal(pts, pts_before):
+                    out.violate("uniquify_point_set modified its input array", points=pts_before, after=pts, tol=tol)
+                    out.ev("uniq/VIOLATION", key)
                     continue
                 ok = (
                     u.shape == (d, K)
@@ -312,7 +363,7 @@ def _run_uniq(case, out: Outcome):
     if not out.samples and nc >= 2:
         letters, lab_id, table = _words(nc, min(N, nc + 1))
         w = letters.shape[0] // 2
-        T = _cluster_table(d, tol, cfg, case["axes"][0])
+        T = _cluster_table(d, tol, cfg, case["axes"][0], frame)
         out.samples.append({"points": T[:, letters[w]].tolist(), "tol": tol, "labels": (letters[w] // 3).tolist(),
                             "expected_new_2_old": table[int(lab_id[w])][0].tolist()})
 
@@ -399,6 +450,7 @@ def _run_ismember(case, out: Outcome):
                     cls = f"ismember/{layout}/sort{int(sort)}/" + ("none" if nm == 0 else "all" if nm == len(sa) else "some") \
                         + ("/perm" if perm_only else "") + ("/dupb" if len(set(kb)) < len(kb) else "")
                     key = (d, layout, sort, sa, sb) if 0 < nm < len(sa) or perm_only else None
+                    a0, b0 = a.copy(), b.copy()
                     try:
                         mem, ia = ismember_columns(a, b, sort=sort)
                         mem = np.asarray(mem)
@@ -408,7 +460,9 @@ def _run_ismember(case, out: Outcome):
                         out.ev("ismember/exception", key)
                         continue
                     bad = None
-                    if mem.shape != (len(sa),) or mem.dtype != np.bool_:
+                    if not (np.array_equal(a, a0) and np.array_equal(b, b0)):
+                        bad = "an input array was modified"
+                    elif mem.shape != (len(sa),) or mem.dtype != np.bool_:
                         bad = "membership mask has wrong shape/dtype"
                     elif mem.tolist() != exp_mem:
                         bad = "membership mask differs from brute force"
@@ -485,6 +539,7 @@ def _run_intersect(case, out: Outcome):
                     b = np.ascontiguousarray(B[:, list(sb)])
                     if layout == "1d":
                         a, b = a[0].copy(), b[0].copy()
+                    a0, b0 = a.copy(), b.copy()
                     try:
                         ia, ib, a_in_b, inter = intersect_sets(a, b, tol)
                     except Exception as e:
@@ -494,7 +549,9 @@ def _run_intersect(case, out: Outcome):
                     bad = None
                     try:
                         got = [sorted(int(j) for j in l) for l in inter]
-                        if got != exp:
+                        if not (np.array_equal(a, a0) and np.array_equal(b, b0)):
+                            bad = "an input array was modified"
+                        elif got != exp:
                             bad = "intersection lists differ from brute force"
                         elif any(len(set(l)) != len(l) for l in got):
                             bad = "duplicate index in an intersection list"
@@ -572,7 +629,8 @@ def known_finding(case, viol):
         got_u = np.array(viol["got_unique"], dtype=float).reshape(pts.shape[0], -1)
         # a norm difference that equals tol up to rounding may fall on either side in the
         # implementation's arithmetic: both readings of the boundary are admitted
-        for thr in (tol, tol * (1 - 1e-9), tol * (1 + 1e-9)):
+        slack = max(1e-9 * tol, 8 * float(np.spacing(max(norms))))
+        for thr in (tol, tol - slack, tol + slack):
             bins = _anchored_bins(norms, thr)
             refined = list(zip(labels, bins))
             split = any(labels[i] == labels[j] and bins[i] != bins[j] for i in range(len(labels)) for j in range(i))
